@@ -349,10 +349,9 @@ class Output(IOutput, Loggable):
                 return self._unpack(data)
 
             t_prev, data_prev = self.data[i - 1]
-            diff = t - t_prev
-            t_half = t_prev + diff / 2
 
-            if time < t_half:
+            # nearest publication; timedelta / 2 would round the midpoint
+            if time - t_prev < t - time:
                 return self._unpack(data_prev)
 
             return self._unpack(data)
